@@ -5,9 +5,34 @@ import z3
 INF = float("inf")
 
 
-def collect_bounds(assertions):
-    """Bounds of uninterpreted Int constants implied by top-level conjuncts of simple shape."""
-    b = {}
+class Bounds(dict):
+    """var id -> (var, lo, hi); .defs: var id -> defining term (from top-level equalities var == term)."""
+
+    def __init__(self):
+        dict.__init__(self)
+        self.defs = {}
+        self.keep = []
+        self.version = 0
+        self.iv_memo = {}
+        self.iv_version = -1
+
+    def clone(self):
+        b = Bounds()
+        b.update(self)
+        b.defs = dict(self.defs)
+        b.keep = list(self.keep)
+        b.version = self.version
+        return b
+
+    def memo(self):
+        if self.iv_version != self.version:
+            self.iv_memo = {}
+            self.iv_version = self.version
+        return self.iv_memo
+
+
+def add_assertion(b, assertion):
+    """Incrementally record the bounds / definitions implied by one more top-level assertion."""
 
     def upd(x, lo=None, hi=None):
         k = x.get_id()
@@ -18,6 +43,9 @@ def collect_bounds(assertions):
 
     def is_var(t):
         return z3.is_const(t) and t.decl().kind() == z3.Z3_OP_UNINTERPRETED and z3.is_int(t)
+
+    def is_uf(t):
+        return z3.is_app(t) and t.decl().kind() == z3.Z3_OP_UNINTERPRETED
 
     def visit(t, pos=True):
         if z3.is_and(t) and pos:
@@ -39,15 +67,22 @@ def collect_bounds(assertions):
         if not z3.is_app(t) or t.num_args() != 2:
             return
         k = t.decl().kind()
-        a, c = t.arg(0), t.arg(1)
         ops = {z3.Z3_OP_LE: "<=", z3.Z3_OP_GE: ">=", z3.Z3_OP_LT: "<", z3.Z3_OP_GT: ">", z3.Z3_OP_EQ: "=="}
         if k not in ops:
             return
+        a, c = t.arg(0), t.arg(1)
         op = ops[k]
         if not pos:
             op = {"<=": ">", ">=": "<", "<": ">=", ">": "<=", "==": None}[op]
             if op is None:
                 return
+        if op == "==" and z3.is_int(a):
+            if is_uf(a) and not z3.is_int_value(c) and a.get_id() not in b.defs:
+                b.defs[a.get_id()] = c
+                b.keep.append(a)
+            elif is_uf(c) and not z3.is_int_value(a) and c.get_id() not in b.defs:
+                b.defs[c.get_id()] = a
+                b.keep.append(c)
         if is_var(a) and z3.is_int_value(c):
             v = c.as_long()
             x = a
@@ -68,8 +103,15 @@ def collect_bounds(assertions):
         elif op == "==":
             upd(x, lo=v, hi=v)
 
+    visit(assertion, True)
+    b.version += 1
+
+
+def collect_bounds(assertions):
+    """Bounds of uninterpreted Int constants implied by top-level conjuncts of simple shape."""
+    b = Bounds()
     for a in assertions:
-        visit(a, True)
+        add_assertion(b, a)
     return b
 
 
@@ -85,7 +127,7 @@ def mul_iv(a, b):
 def interval(t, bounds, memo=None, depth=0):
     """(lo, hi) with lo/hi ints or +-inf such that lo <= t <= hi under `bounds`."""
     if memo is None:
-        memo = {}
+        memo = bounds.memo() if isinstance(bounds, Bounds) else {}
     k = t.get_id()
     if k in memo:
         return memo[k]
@@ -104,9 +146,15 @@ def _interval(t, bounds, memo, depth):
         return (-INF, INF)
     k = t.decl().kind()
     ch = t.children()
-    if k == z3.Z3_OP_UNINTERPRETED and not ch:
-        e = bounds.get(t.get_id())
-        return (e[1], e[2]) if e else (-INF, INF)
+    if k == z3.Z3_OP_UNINTERPRETED:
+        e = bounds.get(t.get_id()) if not ch else None
+        lo, hi = (e[1], e[2]) if e else (-INF, INF)
+        d = getattr(bounds, "defs", {}).get(t.get_id())
+        if d is not None and depth < 200:
+            memo[t.get_id()] = (lo, hi)  # cycle guard
+            dl, dh = interval(d, bounds, memo, depth + 1)
+            lo, hi = max(lo, dl), min(hi, dh)
+        return (lo, hi)
 
     def rec(x):
         return interval(x, bounds, memo, depth + 1)
@@ -133,6 +181,8 @@ def _interval(t, bounds, memo, depth):
         r = (1, 1)
         for c in ch:
             r = mul_iv(r, rec(c))
+        if len(ch) == 2 and ch[0].get_id() == ch[1].get_id():
+            r = (max(0, r[0]), r[1])  # square
         return r
     if k == z3.Z3_OP_ITE:
         a, b = rec(ch[1]), rec(ch[2])
@@ -150,3 +200,63 @@ def _interval(t, bounds, memo, depth):
             return a
         return (0, d - 1)
     return (-INF, INF)
+
+
+def decide(c, bounds, memo=None):
+    """True / False if the Boolean term is decided by interval reasoning, else None (sound, incomplete)."""
+    if memo is None:
+        memo = bounds.memo() if isinstance(bounds, Bounds) else {}
+    if z3.is_true(c):
+        return True
+    if z3.is_false(c):
+        return False
+    if z3.is_not(c):
+        r = decide(c.arg(0), bounds, memo)
+        return None if r is None else (not r)
+    if z3.is_and(c):
+        rs = [decide(x, bounds, memo) for x in c.children()]
+        if any(r is False for r in rs):
+            return False
+        if all(r is True for r in rs):
+            return True
+        return None
+    if z3.is_or(c):
+        rs = [decide(x, bounds, memo) for x in c.children()]
+        if any(r is True for r in rs):
+            return True
+        if all(r is False for r in rs):
+            return False
+        return None
+    if not z3.is_app(c) or c.num_args() != 2:
+        return None
+    k = c.decl().kind()
+    a, b = c.arg(0), c.arg(1)
+    if not (z3.is_int(a) and z3.is_int(b)):
+        return None
+    ia, ib = interval(a, bounds, memo), interval(b, bounds, memo)
+    if k == z3.Z3_OP_LE:
+        if ia[1] <= ib[0]:
+            return True
+        if ia[0] > ib[1]:
+            return False
+    elif k == z3.Z3_OP_LT:
+        if ia[1] < ib[0]:
+            return True
+        if ia[0] >= ib[1]:
+            return False
+    elif k == z3.Z3_OP_GE:
+        if ia[0] >= ib[1]:
+            return True
+        if ia[1] < ib[0]:
+            return False
+    elif k == z3.Z3_OP_GT:
+        if ia[0] > ib[1]:
+            return True
+        if ia[1] <= ib[0]:
+            return False
+    elif k == z3.Z3_OP_EQ:
+        if ia[1] < ib[0] or ib[1] < ia[0]:
+            return False
+        if ia[0] == ia[1] == ib[0] == ib[1]:
+            return True
+    return None
